@@ -770,6 +770,9 @@ def check(ctx) -> None:
     rule_b4(ctx, reach)
     rule_b11(ctx, reach)
     rule_b12(ctx, reach)
+    rule_b13(ctx)
+    rule_b14(ctx, reach)
+    rule_b15(ctx, reach)
     rule_b5(ctx, pl)
     rule_b6(ctx, reach)
     rule_b7(ctx, ctx.res.reachable(["synrbl.balancing.Balancer.rebalance"], ctx.graph))
@@ -848,7 +851,12 @@ def rule_b10(ctx, rule_id: str = "C06-B10") -> None:
             continue
         for c in [x for x in own_nodes(f.node) if isinstance(x, ast.Call) and isinstance(x.func, ast.Attribute) and x.func.attr == "to_csv"]:
             mode = next((k.value for k in c.keywords if k.arg == "mode"), None)
-            if not (isinstance(mode, ast.Constant) and isinstance(mode.value, str) and "a" in mode.value):
+            if mode is None and len(c.args) >= 1:
+                mode = None  # to_csv(path): mode is keyword-only in practice
+            cands = [mode] if mode is not None else []
+            if isinstance(mode, ast.Name):
+                cands += [v for _st, v, _i in assignments_to(f, mode.id)]
+            if not any(isinstance(x, ast.Constant) and isinstance(x.value, str) and "a" in x.value for m in cands for x in ast.walk(m)):
                 continue
             n += 1
             # where do the appended frame's columns come from?
@@ -870,6 +878,147 @@ def rule_b10(ctx, rule_id: str = "C06-B10") -> None:
                 ctx.finding(rule_id, "%s:chunk-appended-under-first-chunk-layout" % q.split("synrbl.", 1)[-1], f.loc(c), "%s appends result chunks to the output under a column layout taken from chunk data (%s): result rows only carry the keys that were set for them, so columns missing from the first chunk are dropped from every later row" % (f.name, unparse(layout) if layout is not None else "none"))
     if n == 0:
         ctx.note("%s: the command line writes the output in one piece on this tree" % rule_id)
+
+
+def rule_b13(ctx, rule_id: str = "C06-B13") -> None:
+    """A container display used as a parameter default is one object for every call and every instance that stored it.
+    Editing it - in the function, through the attribute it was stored in, or through another object's attribute -
+    changes what every other user of the default gets: the result of a call depends on which objects were built or
+    which calls were made before.  Package-wide (constructors and setters included, not only the pipeline path)."""
+    from ..shared import SharedFlow
+
+    prog = ctx.prog
+    scope = {q for q in prog.functions if q.startswith("synrbl.")}
+    sflow = SharedFlow(ctx, scope)
+    defaults = sorted((q, p) for q, ps in sflow.shared_params.items() for p in ps if "default value of parameter" in sflow.origin.get((q, p), ""))
+    ctx.rule(rule_id, "no function of the package edits an object that is the default value of a parameter", 1)
+    for q, p in defaults:
+        ctx.instance(rule_id, "%s(%s=<container display>) is followed" % (q.split("synrbl.", 1)[-1], p), prog.functions[q].loc(), ok=True, nontrivial=False)
+    for q in sorted(scope):
+        f = prog.functions[q]
+        for node, why in sflow.mutations(f):
+            if "default value of parameter" not in why:
+                continue
+            ctx.instance(rule_id, "%s: %s" % (q.split("synrbl.", 1)[-1], why[:100]), f.loc(node), ok=False)
+            ctx.finding(rule_id, "%s:edits-default-argument" % q.split("synrbl.", 1)[-1], f.loc(node), "%s (`%s`): the default is one object shared by every call and every object that stored it, so what other users of the default get depends on what ran before" % (why[:160], unparse(node)[:50]))
+    ctx.require(defaults, "no container display is used as a parameter default any more (nothing to follow)")
+
+
+def _catch_all(h: ast.ExceptHandler) -> bool:
+    if h.type is None:
+        return True
+    ts = h.type.elts if isinstance(h.type, ast.Tuple) else [h.type]
+    return any(unparse(t).split(".")[-1] in ("Exception", "BaseException") for t in ts)
+
+
+def _writes_issue(h: ast.ExceptHandler) -> bool:
+    for b in h.body:
+        for x in ast.walk(b):
+            if isinstance(x, (ast.Assign, ast.AugAssign)):
+                for t in x.targets if isinstance(x, ast.Assign) else [x.target]:
+                    if isinstance(t, ast.Subscript) and not isinstance(t.slice, ast.Slice) and "issue" in unparse(t.slice).lower():
+                        return True
+    return False
+
+
+def rule_b14(ctx, scope, rule_id: str = "C06-B14") -> None:
+    """The work for one reaction is fenced: where a fault of that work is turned into the reaction's own issue text, the
+    handlers around it catch *every* exception (RDKit raises Boost ArgumentError - a TypeError -, KeyError, IndexError
+    ... besides ValueError / RuntimeError).  A fault that slips through reaches the batch-level handler of the
+    Balancer, which drops every row of the batch: the rows of the other reactions then depend on their batch mates."""
+    ctx.rule(rule_id, "where a per-reaction fault becomes the row's issue text the handlers are complete (catch Exception), or the fenced work is itself fenced", 3)
+    prog = ctx.prog
+
+    def fences(g):
+        return [t for t in own_nodes(g.node) if isinstance(t, ast.Try) and any(_writes_issue(h) for h in t.handlers)]
+
+    def fenced(g) -> bool:
+        fs = fences(g)
+        return bool(fs) and all(any(_catch_all(h) for h in t.handlers) for t in fs)
+
+    n = 0
+    for q in sorted(scope):
+        f = prog.functions.get(q)
+        if f is None or not q.startswith("synrbl."):
+            continue
+        for t in fences(f):
+            n += 1
+            short = q.split("synrbl.", 1)[-1]
+            if any(_catch_all(h) for h in t.handlers):
+                ctx.instance(rule_id, "%s: handlers %s include a catch-all" % (short, [unparse(h.type) if h.type else "bare" for h in t.handlers]), f.loc(t), ok=True)
+                continue
+            # the body only starts / waits for work that is fenced itself
+            refs = []
+            exprs = list(t.body)
+            # handles waited for in the body were started before it (`r = pool.apply_async(job, ..)` ... `r.get(timeout)`)
+            for b in t.body:
+                for x in ast.walk(b):
+                    if isinstance(x, ast.Name) and isinstance(x.ctx, ast.Load):
+                        exprs.extend(v for _st, v, _i in assignments_to(f, x.id) if isinstance(v, ast.Call))
+            for b in exprs:
+                for x in ast.walk(b):
+                    if isinstance(x, ast.Call):
+                        tg = ctx.res.resolve_callee(x, f)
+                        if tg and tg[0] == "func" and tg[1] in prog.functions and tg[1].startswith("synrbl."):
+                            refs.append(prog.functions[tg[1]])
+                        for a in list(x.args) + [k.value for k in x.keywords]:
+                            if isinstance(a, (ast.Name, ast.Attribute)):
+                                tv = ctx.res.resolve_value(a, f)
+                                if tv and tv[0] == "func" and tv[1] in prog.functions and tv[1].startswith("synrbl."):
+                                    refs.append(prog.functions[tv[1]])
+            inner_ok = bool(refs) and all(fenced(g) for g in refs)
+            ctx.instance(rule_id, "%s: handlers %s, no catch-all; fenced work inside: %s" % (short, [unparse(h.type) if h.type else "bare" for h in t.handlers], [g.name for g in refs] if inner_ok else "no"), f.loc(t), ok=inner_ok)
+            if not inner_ok:
+                ctx.finding(rule_id, "%s:per-reaction-fence-incomplete" % short, f.loc(t), "the handlers that turn a fault of this reaction's work into its issue text catch only %s: any other exception type (RDKit raises Boost ArgumentError/TypeError, KeyError, ...) escapes to the batch-level handler of the Balancer, and every row of the batch is lost with it" % [unparse(h.type) for h in t.handlers if h.type is not None])
+    ctx.require(n >= 3, "fewer than 3 per-reaction fences found on the pipeline path (%d)" % n)
+
+
+def rule_b15(ctx, scope, rule_id: str = "C06-B15") -> None:
+    """The run statistics of the batches are combined by addition (merge_stats), so a per-batch statistic has to be
+    additive over a partition of the rows: a count of rows with a row-local property.  A quantity that compares rows
+    with each other - the size of a set of values, a maximum, a number of distinct / repeated reactions - is not: the
+    reported figure then depends on how the rows fall into batches."""
+    ctx.rule(rule_id, "every per-batch statistic is a count over rows (additive); none is derived from a set, a dict of values or an extreme", 5)
+    prog = ctx.prog
+    NON_ADDITIVE_CALLS = {"set", "frozenset", "fromkeys", "Counter", "unique", "nunique", "drop_duplicates", "duplicated", "max", "min", "mean", "median", "groupby", "value_counts"}
+    n = 0
+    for q in sorted(scope):
+        f = prog.functions.get(q)
+        if f is None or not q.startswith("synrbl.") or f.name == "merge_stats":
+            continue
+        stats_names = {p for p in f.params + f.kwonly if p == "stats" or p.endswith("_stats")}
+        if not stats_names:
+            continue
+        for st in own_nodes(f.node):
+            if not isinstance(st, (ast.Assign, ast.AugAssign)):
+                continue
+            tgts = st.targets if isinstance(st, ast.Assign) else [st.target]
+            for t in tgts:
+                if not (isinstance(t, ast.Subscript) and isinstance(t.value, ast.Name) and t.value.id in stats_names):
+                    continue
+                n += 1
+                exprs, seen, work = [], set(), [(st.value, 0)]
+                while work:
+                    e, d = work.pop()
+                    exprs.append(e)
+                    if d >= 3:
+                        continue
+                    for x in ast.walk(e):
+                        if isinstance(x, ast.Name) and isinstance(x.ctx, ast.Load) and x.id not in seen and x.id not in f.params:
+                            seen.add(x.id)
+                            for _s, v, _i in assignments_to(f, x.id):
+                                work.append((v, d + 1))
+                bad = None
+                for e in exprs:
+                    for x in ast.walk(e):
+                        if isinstance(x, (ast.Set, ast.SetComp, ast.DictComp)):
+                            bad = bad or x
+                        elif isinstance(x, ast.Call) and unparse(x.func).split(".")[-1] in NON_ADDITIVE_CALLS:
+                            bad = bad or x
+                ctx.instance(rule_id, "%s: stats[%s] = %s" % (q.split("synrbl.", 1)[-1], unparse(t.slice), unparse(st.value)[:50]), f.loc(st), ok=bad is None)
+                if bad is not None:
+                    ctx.finding(rule_id, "%s:non-additive-statistic:%s" % (q.split("synrbl.", 1)[-1], unparse(t.slice).strip("'\"")), f.loc(st), "the statistic %s is computed from %s, which compares the rows of the batch with each other: summed over batches by merge_stats the reported value depends on the batch layout (a reaction repeated across two batches is counted in neither)" % (unparse(t.slice), unparse(bad)[:50]))
+    ctx.require(n >= 5, "fewer than 5 per-batch statistics found (%d)" % n)
 
 
 def rule_b11(ctx, scope, rule_id: str = "C06-B11") -> None:
